@@ -107,6 +107,42 @@ def _lower_dictcomp_stmt(st):
     return out
 
 
+_tmp_counter = [0]
+
+
+def _lower_idempotent_set(st):
+    """`if X is not V: X = V; REST`  ->  `t = X is not V; X = V; if t: REST`
+    (assigning a plain attribute / name the value it already has changes nothing, so the
+    assignment can be made unconditional; only the bookkeeping stays conditional)."""
+    if not isinstance(st, ast.If) or st.orelse or not st.body:
+        return None
+    t = st.test
+    if not (isinstance(t, ast.Compare) and len(t.ops) == 1 and isinstance(t.ops[0], (ast.IsNot, ast.NotEq))):
+        return None
+    first = st.body[0]
+    if not (isinstance(first, ast.Assign) and len(first.targets) == 1 and isinstance(first.targets[0], (ast.Name, ast.Attribute))):
+        return None
+    tgt, val = ast.unparse(first.targets[0]), ast.unparse(first.value)
+    a_, b_ = ast.unparse(t.left), ast.unparse(t.comparators[0])
+    if {a_, b_} != {tgt, val} or tgt == val:
+        return None
+    if not isinstance(first.value, (ast.Name, ast.Attribute, ast.Constant)):
+        return None
+    rest = st.body[1:]
+    if not rest:
+        return [first]
+    _tmp_counter[0] += 1
+    tmp = f"_norm{_tmp_counter[0]}_changed"
+    out = [
+        ast.copy_location(ast.Assign(targets=[ast.Name(id=tmp, ctx=ast.Store())], value=t, lineno=st.lineno), st),
+        first,
+        ast.copy_location(ast.If(test=ast.Name(id=tmp, ctx=ast.Load()), body=rest, orelse=[]), st),
+    ]
+    for s_ in out:
+        ast.fix_missing_locations(s_)
+    return out
+
+
 def _rewrite_blocks(node) -> bool:
     changed = False
     for fld in ("body", "orelse", "finalbody"):
@@ -115,7 +151,7 @@ def _rewrite_blocks(node) -> bool:
             continue
         new_block = []
         for st in block:
-            rep = _lower_ifexp_stmt(st) or _lower_dictcomp_stmt(st)
+            rep = _lower_ifexp_stmt(st) or _lower_dictcomp_stmt(st) or _lower_idempotent_set(st)
             if rep is not None:
                 new_block.extend(rep)
                 changed = True
@@ -136,7 +172,32 @@ def _rewrite_blocks(node) -> bool:
     return changed
 
 
+def _annotate_raises(tree: ast.Module) -> None:
+    """`exc = Cls(...)` ... `raise exc`: remember what the name is bound to (single binding)."""
+    for fn in ast.walk(tree):
+        if not isinstance(fn, (ast.FunctionDef, ast.AsyncFunctionDef)):
+            continue
+        binds: dict = {}
+        for n in ast.walk(fn):
+            if isinstance(n, ast.Assign) and len(n.targets) == 1 and isinstance(n.targets[0], ast.Name):
+                binds.setdefault(n.targets[0].id, []).append(n.value)
+            elif isinstance(n, (ast.AnnAssign, ast.AugAssign, ast.NamedExpr)) and isinstance(n.target, ast.Name):
+                binds.setdefault(n.target.id, []).append(getattr(n, "value", None))
+            elif isinstance(n, ast.ExceptHandler) and n.name:
+                binds.setdefault(n.name, []).append(None)
+            elif isinstance(n, (ast.For, ast.AsyncFor, ast.With, ast.AsyncWith)):
+                for x in ast.walk(n.target if isinstance(n, (ast.For, ast.AsyncFor)) else ast.Tuple(elts=[i.optional_vars for i in n.items if i.optional_vars is not None])):
+                    if isinstance(x, ast.Name):
+                        binds.setdefault(x.id, []).append(None)
+        for n in ast.walk(fn):
+            if isinstance(n, ast.Raise) and isinstance(n.exc, ast.Name):
+                vals = binds.get(n.exc.id, [])
+                if len(vals) == 1 and isinstance(vals[0], ast.Call):
+                    n._exc_resolved = vals[0]  # type: ignore[attr-defined]
+
+
 def normalize_tree(tree: ast.Module) -> bool:
+    _annotate_raises(tree)
     changed_any = False
     for _ in range(6):
         if not _rewrite_blocks(tree):
